@@ -174,4 +174,9 @@ theorem broadcast_bound_from_one_operand_counterexample :
 theorem reshape_minus_one_bound_counterexample :
     reshape [2, 3, 4] [4, -1] = some [4, 6] ∧ clipList [4, 4] [4, 6] ≠ [4, 6] := by decide
 
+/-- known finding C09.repeat-clipped-repeats: the constant branch of `shape_repeat` repeats by the BOUNDS
+    `(3,2)` of the clipped repeats `(2,1)` -/
+theorem repeat_bounds_counterexample :
+    repeatList [2, 2] [2, 1] (some 0) = some [3, 2] ∧ repeatList [2, 2] [3, 2] (some 0) ≠ some [3, 2] := by decide
+
 end NmVerif.Props.C09
